@@ -261,6 +261,20 @@ def refTargets (c : Cfg α) (pref prefTotal : α) : α → α → List (Step α)
     let o := ampStep c pref prefTotal pd pv s.inp
     (pref + o.dpInt, pref + o.dpInt - o.outVoa) :: refTargets c pref prefTotal o.retDp o.retVoa rest
 
+
+/-! ### the design load: how many channels a band carries -/
+
+/-- `automatic_nch(f_min, f_max, spacing) = int((f_max - f_min) // spacing)` (frequencies in integer Hz) -/
+def automaticNch (fmin fmax spacing : Int) : Int := (fmax - fmin) / spacing
+
+/-- `reference_channel.nb_channel if reference_channel.nb_channel else automatic_nch(band f_min, band f_max, band spacing)`:
+the channel count imposed with the reference channel if there is one (Python truthiness: 0 counts as absent), else
+the count of the DESIGN BAND with the design band's own spacing -/
+def designChannels (nbRef : Option Int) (fmin fmax spacing : Int) : Int :=
+  match nbRef with
+  | some n => if n = 0 then automaticNch fmin fmax spacing else n
+  | none => automaticNch fmin fmax spacing
+
 /-! ### reference input powers (`set_fiber_input_power`, `set_roadm_input_powers`) -/
 
 /-- the reference-channel power the design records at the input of every element of a designed line (and, as last
@@ -281,6 +295,9 @@ def propIns : α → List (Elem α) → List (AmpOut α) → List α
   | p, .edfa _ _ :: _, [] => [p]
   | p, .fiber _ q :: rest, outs => p :: propIns (p - q.loss) rest outs
   | p, .fused _ l :: rest, outs => p :: propIns (p - l) rest outs
+
+/-- `pref_total_db[band] = pref_ch_db + lin2db(nb_channels_per_band)` -/
+def prefTotalDb (pref : α) (nb : Int) : α := pref + lin2db ((nb.toNat : Nat) : α)
 
 end
 end Gnpy.Chain
